@@ -1,5 +1,6 @@
 // C12 debuggee: deterministic, no input, prints a lot to stdout and stderr (exercises the two DAP
 // output forwarders). With the argument `threads` it also starts and joins two worker threads.
+// (the marker `spawn1` sits on the statement that creates the first worker: sessions stop there and step over it.)
 // Lines carrying a `BP:<name>` marker are looked up by the harness (never hard-code line numbers).
 use std::io::Write;
 
@@ -35,7 +36,7 @@ fn main() {
         acc += work(i);
     }
     if threads {
-        let h1 = std::thread::spawn(|| worker(1));
+        let h1 = std::thread::spawn(|| worker(1)); // BP:spawn1
         let r1 = h1.join().unwrap();
         let h2 = std::thread::spawn(|| worker(2));
         let r2 = h2.join().unwrap();
